@@ -40,6 +40,7 @@ type Stats struct {
 	FeasQueries, Obligations, Discharged, Inconclusive           int64
 	ConcreteChecks, ConcreteAsserts, ImpliedChecks                int64
 	ConfirmQueries, ConfirmUnknown, Disagreements, Unknowns       int64
+	Retries                                                        int64
 	BatchQueries, BatchNs, PrunedAbs, AbsCrossChecks              int64
 	Merges, MergeAborts                                           int64
 	Steps                                                         int64
@@ -66,6 +67,7 @@ func (s *Stats) add(o *Stats) {
 	s.ConfirmUnknown += o.ConfirmUnknown
 	s.Disagreements += o.Disagreements
 	s.Unknowns += o.Unknowns
+	s.Retries += o.Retries
 	s.BatchQueries += o.BatchQueries
 	s.BatchNs += o.BatchNs
 	s.PrunedAbs += o.PrunedAbs
